@@ -1,4 +1,5 @@
 //! Suite registry: one module per correspondence suite; `lookup` maps a suite name to its runner.
+pub mod auth;
 pub mod curve;
 pub mod panic;
 
@@ -6,6 +7,7 @@ pub fn lookup(name: &str) -> Option<fn(&str) -> String> {
     Some(match name {
         "panic" => panic::run,
         "curve" => curve::run,
+        "auth" => auth::run,
         _ => return None,
     })
 }
